@@ -7,6 +7,7 @@ package verifhook
 
 import (
 	"fmt"
+	"reflect"
 	"sort"
 	"sync"
 	"sync/atomic"
@@ -110,24 +111,145 @@ type Scheduler struct {
 	Pick    func(enabled []int, cur int, what string) int
 	Horizon int
 
-	threads []*thread
-	cur     *thread
-	steps   int
-	done    chan struct{}
-	Err     string // "deadlock: ..." / "horizon exceeded" / panic text
-	failed  bool
-	Trace   []string
+	threads   []*thread
+	cur       *thread
+	steps     int
+	done      chan struct{}
+	Err       string // "deadlock: ..." / "horizon exceeded" / panic text
+	failed    bool
+	Trace     []string
 	KeepTrace bool
-	now     time.Time
-	timers  []*Timer
+	now       time.Time
+	timers    []*Timer
+
+	live     sync.WaitGroup // goroutines of this execution that have not returned yet
+	Leaked   bool           // threads were still running 10 s after the execution was aborted
+	progress int            // scheduling points passed by threads that were not merely waiting (see WaitYield)
+	// MaxAccesses bounds the accesses recorded in one execution: a loop without scheduling points that keeps touching
+	// instrumented fields (a spin) fails the execution instead of exhausting memory. 0 = 200000.
+	MaxAccesses int
+
+	// TrackAccess turns on recording of the memory accesses the instrumented library reports (Access)
+	TrackAccess bool
+	Accesses    []AccessRec
+}
+
+// VC is a vector clock (thread id -> count); nil is the zero clock.
+type VC map[int]int
+
+func (a VC) copy() VC {
+	out := make(VC, len(a))
+	for k, v := range a {
+		out[k] = v
+	}
+	return out
+}
+
+// join returns the component-wise maximum (a is modified and returned if non-nil).
+func (a VC) join(b VC) VC {
+	if a == nil {
+		a = VC{}
+	}
+	for k, v := range b {
+		if v > a[k] {
+			a[k] = v
+		}
+	}
+	return a
+}
+
+// leq reports a <= b component-wise (a happened before or equals b).
+func (a VC) leq(b VC) bool {
+	for k, v := range a {
+		if v > b[k] {
+			return false
+		}
+	}
+	return true
+}
+
+// AccessRec is one reported memory access.
+type AccessRec struct {
+	Thread int
+	Addr   uintptr
+	Field  string
+	Write  bool
+	Site   string
+	vc     VC
+}
+
+// Access is called by instrumented methods before a statement that reads or writes a field through the receiver.
+func Access(obj interface{}, field string, write bool, site string) {
+	s := active
+	if s == nil || !s.TrackAccess {
+		return
+	}
+	t := s.cur
+	max := s.MaxAccesses
+	if max == 0 {
+		max = 200000
+	}
+	if len(s.Accesses) >= max {
+		s.fail(fmt.Sprintf("livelock: thread %d made %d field accesses without reaching a scheduling point or finishing (last: %s %s)", t.id, max, site, field))
+		panic(abortSignal{})
+	}
+	s.Accesses = append(s.Accesses, AccessRec{Thread: t.id, Addr: reflect.ValueOf(obj).Pointer(), Field: field, Write: write, Site: site, vc: t.vc.copy()})
+}
+
+// Races lists the pairs of recorded accesses to the same field of the same object, from different threads, at least
+// one of them a write, that are not ordered by happens-before (spawn, join, mutex, wait group, atomic value, sync.Map).
+func (s *Scheduler) Races() []string {
+	var out []string
+	seen := map[string]bool{}
+	for i := range s.Accesses {
+		a := &s.Accesses[i]
+		for j := i + 1; j < len(s.Accesses); j++ {
+			b := &s.Accesses[j]
+			if a.Thread == b.Thread || a.Addr != b.Addr || (!a.Write && !b.Write) {
+				continue
+			}
+			if a.Field != b.Field && a.Field != "*" && b.Field != "*" {
+				continue
+			}
+			if a.vc.leq(b.vc) || b.vc.leq(a.vc) {
+				continue
+			}
+			k := fmt.Sprintf("%s(%s,write=%v) || %s(%s,write=%v)", a.Site, a.Field, a.Write, b.Site, b.Field, b.Write)
+			if !seen[k] {
+				seen[k] = true
+				out = append(out, k)
+			}
+		}
+	}
+	sort.Strings(out)
+	return out
+}
+
+// tick advances the running thread's own component (after it released something others may acquire).
+func (s *Scheduler) tick() {
+	t := s.cur
+	if t.vc == nil {
+		t.vc = VC{}
+	}
+	t.vc[t.id]++
+}
+
+// release / acquire implement the happens-before edges of one synchronisation object.
+func (s *Scheduler) release(obj *VC) {
+	*obj = (*obj).join(s.cur.vc)
+	s.tick()
+}
+func (s *Scheduler) acquire(obj *VC) {
+	s.cur.vc = s.cur.vc.join(*obj)
 }
 
 type thread struct {
-	id      int
-	wake    chan struct{}
-	blocked func() bool // non-nil: disabled while it returns true
+	vc       VC
+	id       int
+	wake     chan struct{}
+	blocked  func() bool // non-nil: disabled while it returns true
 	finished bool
-	name    string
+	name     string
 }
 
 var active *Scheduler
@@ -151,12 +273,25 @@ func Run(s *Scheduler, main func()) {
 	defer func() { active = nil }()
 	t := s.newThread("main")
 	s.cur = t
-	go s.body(t, main)
+	s.live.Add(1)
+	go func() {
+		defer s.live.Done()
+		s.body(t, main)
+	}()
 	<-s.done
+	// every goroutine of this execution must be gone before the next one starts (after an abort they are still unwinding)
+	gone := make(chan struct{})
+	go func() { s.live.Wait(); close(gone) }()
+	select {
+	case <-gone:
+	case <-time.After(10 * time.Second):
+		s.Leaked = true
+	}
 }
 
 func (s *Scheduler) newThread(name string) *thread {
-	t := &thread{id: len(s.threads), wake: make(chan struct{}, 1), name: name}
+	t := &thread{id: len(s.threads), wake: make(chan struct{}, 1), name: name, vc: VC{}}
+	t.vc[t.id] = 1
 	s.threads = append(s.threads, t)
 	return t
 }
@@ -298,7 +433,46 @@ func Point(what string) {
 	if s == nil {
 		return
 	}
+	s.progress++
 	s.switchFrom(s.cur, what)
+}
+
+// WaitYield is called by a polling loop (instrumented select / channel receive) that found nothing ready: the thread is
+// disabled until some other thread has passed a scheduling point. If nobody else can run, that is a deadlock.
+func WaitYield(what string) {
+	s := active
+	if s == nil {
+		time.Sleep(20 * time.Microsecond)
+		return
+	}
+	t := s.cur
+	mark := s.progress
+	t.blocked = func() bool { return s.progress == mark }
+	s.switchFrom(t, "wait:"+what)
+	t.blocked = nil
+}
+
+// Recv is a blocking channel receive that the scheduler sees as a wait.
+func Recv[T any](ch <-chan T) T {
+	v, _ := Recv2(ch)
+	return v
+}
+
+// Recv2 is Recv with the "ok" result.
+func Recv2[T any](ch <-chan T) (T, bool) {
+	if active == nil {
+		v, ok := <-ch
+		return v, ok
+	}
+	for {
+		select {
+		case v, ok := <-ch:
+			Point("chan.recv")
+			return v, ok
+		default:
+			WaitYield("recv")
+		}
+	}
 }
 
 // block parks the running thread until cond() is false.
@@ -319,9 +493,13 @@ func Go(f func()) {
 		return
 	}
 	t := s.newThread("go")
+	t.vc = t.vc.join(s.cur.vc) // everything the spawner did happens before the new thread
+	s.tick()
 	started := false
 	t.blocked = nil
+	s.live.Add(1)
 	go func() {
+		defer s.live.Done()
 		<-t.wake
 		if s.failed {
 			return
@@ -405,6 +583,7 @@ type Mutex struct {
 	real   sync.Mutex
 	held   bool
 	holder int
+	vc     VC
 }
 
 func (m *Mutex) Lock() {
@@ -417,17 +596,23 @@ func (m *Mutex) Lock() {
 	s.block("mutex", func() bool { return m.held })
 	m.held = true
 	m.holder = s.cur.id
+	s.acquire(&m.vc)
 }
 
 func (m *Mutex) Unlock() {
 	s := active
 	if s == nil {
+		if m.held { // locked under a scheduler that is gone (aborted execution unwinding)
+			m.held = false
+			return
+		}
 		m.real.Unlock()
 		return
 	}
 	if !m.held {
 		panic("verifhook: unlock of unlocked mutex")
 	}
+	s.release(&m.vc)
 	m.held = false
 	Point("unlock")
 }
@@ -443,6 +628,7 @@ func (m *Mutex) TryLock() bool {
 	}
 	m.held = true
 	m.holder = s.cur.id
+	s.acquire(&m.vc)
 	return true
 }
 
@@ -451,6 +637,7 @@ type RWMutex struct {
 	real    sync.RWMutex
 	writer  bool
 	readers int
+	vc      VC // one clock for readers and writers: orders reader sections too (may hide a race, never invents one)
 }
 
 func (m *RWMutex) Lock() {
@@ -462,12 +649,14 @@ func (m *RWMutex) Lock() {
 	Point("wlock")
 	s.block("rwmutex-w", func() bool { return m.writer || m.readers > 0 })
 	m.writer = true
+	s.acquire(&m.vc)
 }
 func (m *RWMutex) Unlock() {
 	if active == nil {
 		m.real.Unlock()
 		return
 	}
+	active.release(&m.vc)
 	m.writer = false
 	Point("wunlock")
 }
@@ -480,12 +669,14 @@ func (m *RWMutex) RLock() {
 	Point("rlock")
 	s.block("rwmutex-r", func() bool { return m.writer })
 	m.readers++
+	s.acquire(&m.vc)
 }
 func (m *RWMutex) RUnlock() {
 	if active == nil {
 		m.real.RUnlock()
 		return
 	}
+	active.release(&m.vc)
 	m.readers--
 	Point("runlock")
 }
@@ -494,6 +685,7 @@ func (m *RWMutex) RUnlock() {
 type WaitGroup struct {
 	real sync.WaitGroup
 	n    int
+	vc   VC
 }
 
 func (w *WaitGroup) Add(d int) {
@@ -504,6 +696,9 @@ func (w *WaitGroup) Add(d int) {
 	w.n += d
 	if w.n < 0 {
 		panic("verifhook: negative WaitGroup counter")
+	}
+	if d < 0 {
+		active.release(&w.vc)
 	}
 	Point("wg.add")
 }
@@ -516,12 +711,14 @@ func (w *WaitGroup) Wait() {
 	}
 	Point("wg.wait")
 	s.block("waitgroup", func() bool { return w.n > 0 })
+	s.acquire(&w.vc)
 }
 
 // Map replaces sync.Map.
 type Map struct {
 	real sync.Map
 	m    map[interface{}]interface{}
+	vc   VC
 }
 
 func (m *Map) Load(k interface{}) (interface{}, bool) {
@@ -529,6 +726,7 @@ func (m *Map) Load(k interface{}) (interface{}, bool) {
 		return m.real.Load(k)
 	}
 	Point("map.load")
+	active.acquire(&m.vc)
 	v, ok := m.m[k]
 	return v, ok
 }
@@ -538,6 +736,7 @@ func (m *Map) Store(k, v interface{}) {
 		return
 	}
 	Point("map.store")
+	active.release(&m.vc)
 	if m.m == nil {
 		m.m = map[interface{}]interface{}{}
 	}
@@ -549,6 +748,7 @@ func (m *Map) Delete(k interface{}) {
 		return
 	}
 	Point("map.delete")
+	active.release(&m.vc)
 	delete(m.m, k)
 }
 func (m *Map) LoadOrStore(k, v interface{}) (interface{}, bool) {
@@ -556,6 +756,8 @@ func (m *Map) LoadOrStore(k, v interface{}) (interface{}, bool) {
 		return m.real.LoadOrStore(k, v)
 	}
 	Point("map.loadorstore")
+	active.acquire(&m.vc)
+	active.release(&m.vc)
 	if old, ok := m.m[k]; ok {
 		return old, true
 	}
@@ -571,6 +773,7 @@ func (m *Map) Range(f func(k, v interface{}) bool) {
 		return
 	}
 	Point("map.range")
+	active.acquire(&m.vc)
 	keys := make([]interface{}, 0, len(m.m))
 	for k := range m.m {
 		keys = append(keys, k)
@@ -601,6 +804,7 @@ func (m *Map) Len() int {
 type AtomicValue struct {
 	real atomic.Value
 	v    interface{}
+	vc   VC
 }
 
 func (a *AtomicValue) Load() interface{} {
@@ -608,6 +812,7 @@ func (a *AtomicValue) Load() interface{} {
 		return a.real.Load()
 	}
 	Point("atomic.load")
+	active.acquire(&a.vc)
 	return a.v
 }
 func (a *AtomicValue) Store(v interface{}) {
@@ -616,5 +821,6 @@ func (a *AtomicValue) Store(v interface{}) {
 		return
 	}
 	Point("atomic.store")
+	active.release(&a.vc)
 	a.v = v
 }
